@@ -335,3 +335,69 @@ func sortedFaults(fs []FaultSpec) []FaultSpec {
 	})
 	return out
 }
+
+// SimRemote wraps a remote repository: besides the plain store operations it
+// exposes FetchReference, PushReference and Mount, which oras.Copy looks for.
+type SimRemote struct {
+	*SimStore
+}
+
+type remoteInner interface {
+	FetchReference(ctx context.Context, reference string) (ocispec.Descriptor, io.ReadCloser, error)
+	PushReference(ctx context.Context, expected ocispec.Descriptor, content io.Reader, reference string) error
+	Mount(ctx context.Context, desc ocispec.Descriptor, fromRepo string, getContent func() (io.ReadCloser, error)) error
+}
+
+func (s *SimRemote) FetchReference(ctx context.Context, ref string) (ocispec.Descriptor, io.ReadCloser, error) {
+	k := s.M.enter(s.Name, "FetchReference", -1)
+	if k == "before" || k == "after" {
+		s.M.leave(s.Name, "FetchReference", -1, errInjected)
+		return ocispec.Descriptor{}, nil, fmt.Errorf("%s fetch reference: %w", s.Name, errInjected)
+	}
+	d, rc, err := s.Inner.(remoteInner).FetchReference(ctx, ref)
+	s.M.leave(s.Name, "FetchReference", s.M.g.Lookup(d), err)
+	return d, rc, err
+}
+
+func (s *SimRemote) PushReference(ctx context.Context, d ocispec.Descriptor, r io.Reader, ref string) error {
+	n := s.M.g.Lookup(d)
+	if !simrt.Observing() && s.Gauge {
+		s.M.gaugeInc(s.Name + ".op")
+		defer s.M.gaugeDec(s.Name + ".op")
+	}
+	k := s.M.enter(s.Name, "Push", n)
+	if k == "before" {
+		s.M.leave(s.Name, "Push", n, errInjected)
+		return fmt.Errorf("%s push reference node %d: %w", s.Name, n, errInjected)
+	}
+	err := s.Inner.(remoteInner).PushReference(ctx, d, r, ref)
+	if err == nil && k == "after" {
+		err = fmt.Errorf("%s push reference node %d (after effect): %w", s.Name, n, errInjected)
+	}
+	s.M.leave(s.Name, "Push", n, err)
+	return err
+}
+
+func (s *SimRemote) Mount(ctx context.Context, d ocispec.Descriptor, from string, getContent func() (io.ReadCloser, error)) error {
+	n := s.M.g.Lookup(d)
+	if !simrt.Observing() && s.Gauge {
+		s.M.gaugeInc(s.Name + ".op")
+		defer s.M.gaugeDec(s.Name + ".op")
+	}
+	k := s.M.enter(s.Name, "Mount", n)
+	if k == "before" {
+		s.M.leave(s.Name, "Mount", n, errInjected)
+		return fmt.Errorf("%s mount node %d: %w", s.Name, n, errInjected)
+	}
+	err := s.Inner.(remoteInner).Mount(ctx, d, from, getContent)
+	if err == nil && k == "after" {
+		err = fmt.Errorf("%s mount node %d (after effect): %w", s.Name, n, errInjected)
+	}
+	// a completed mount is a completed transfer: report it as a Push event too so
+	// that the link-closure invariant and the accounting see it
+	s.M.leave(s.Name, "Mount", n, err)
+	if err == nil {
+		s.M.leave(s.Name, "Push", n, nil)
+	}
+	return err
+}
